@@ -330,9 +330,18 @@ def run_damv(ctx: Ctx) -> None:
     # the early `break` needs the squares in non-increasing order
     cq = repo.func(INST, "__cutsq")
     sorts = [n for n in ast.walk(cq.node) if isinstance(n, ast.Call)
-             and isinstance(n.func, ast.Attribute) and n.func.attr == "sort"
+             and ((isinstance(n.func, ast.Attribute)
+                   and n.func.attr == "sort")
+                  or (isinstance(n.func, ast.Name)
+                      and n.func.id == "sorted"))
              and any(k.arg == "reverse" and repo.const(
                  cq.module, k.value) is True for k in n.keywords)]
+    # `sorted(..)` counts when it is what the function returns
+    sorts = [n for n in sorts if isinstance(n.func, ast.Attribute) or any(
+        isinstance(r, ast.Return) and r.value is not None and any(
+            x is n for x in ast.walk(inline_locals(cq.node, r.value)))
+        or (isinstance(r, ast.Return) and r.value is n)
+        for r in ast.walk(cq.node))]
     has_break = any(isinstance(st, ast.Break) for st in rest_body)
     ctx.ob("D3.2", cq, sorts[0] if sorts else cq.node,
            bool(sorts) or not has_break,
